@@ -6,11 +6,18 @@ step followed by one downward step (at the default alpha = 1) leaves the connect
 operand with exactly the smallest interval containing all of its values that occur in some
 assignment satisfying every given bound: it contains all of them (not tighter) and both of its end
 points are attained (not looser). When no such assignment exists the upward step already crosses
-the bounds of the connective, i.e. reports a contradiction there.
+the bounds of the connective, i.e. reports a contradiction there (and the downward step is
+arrested).
 
-Full strength: every arity (the theorems do not even need arity ≥ 2), all non-negative weights
-including 0, every bias, both activation variants, all operand and operator bounds in `[0,1]`,
-every ordered field.
+Full strength: every arity (the theorems do not even need arity ≥ 2; Implies: exactly 2), all
+non-negative weights including 0, every bias, both activation variants, all operand and operator
+bounds in `[0,1]`, every ordered field.
+
+Layout: definitions (`andUpDown`, `Feasible`, `WfIn`, …) · And (`C03_and_*`) · Or and Implies by
+negation duality (`C03_or_*`, `C03_implies_*`) · crossed given bounds (`C03_*_infeasible_reported`) ·
+link to the engine model: `andUpDown` & co. are literally `stepUp` then `stepDown` (`C03_engine_*`) ·
+non-vacuity examples over ℚ. Helper declarations live in the namespace `LNN.C03`, the property
+theorems in `LNN`.
 -/
 import LnnVerif.Lemmas.Hull
 import LnnVerif.Lemmas.Engine
@@ -18,7 +25,9 @@ import Mathlib.Algebra.Order.Field.Rat
 
 set_option linter.unusedSectionVars false
 
-namespace LNN
+namespace LNN.C03
+
+open Hull
 
 variable {α : Type} [Field α] [LinearOrder α] [IsStrictOrderedRing α]
 
@@ -135,7 +144,8 @@ theorem exists_feasible_iff (b : α) (self : Bounds α) (ops : List (Opd α)) (h
 
 /-- **C03, And, the connective itself**: after the upward step its bounds contain the And value of
 every feasible assignment, and both end points are the And value of a feasible assignment. -/
-theorem C03_and_operator_hull (b : α) (self : Bounds α) (ops : List (Opd α)) (hwf : WfIn self ops)
+theorem _root_.LNN.C03_and_operator_hull
+    (b : α) (self : Bounds α) (ops : List (Opd α)) (hwf : WfIn self ops)
     (hfeas : ∃ xs, Feasible b self ops xs) :
     let r := (andUpDown b self ops).1
     (∀ xs, Feasible b self ops xs → r.lo ≤ andVal b ops xs ∧ andVal b ops xs ≤ r.hi) ∧
@@ -155,7 +165,8 @@ theorem C03_and_operator_hull (b : α) (self : Bounds α) (ops : List (Opd α)) 
 
 /-- **C03, And, no feasible assignment**: the upward step crosses the bounds of the connective,
 which is a contradiction in the sense of `is_contradiction` at alpha = 1. -/
-theorem C03_and_infeasible (b : α) (self : Bounds α) (ops : List (Opd α)) (hwf : WfIn self ops)
+theorem _root_.LNN.C03_and_infeasible
+    (b : α) (self : Bounds α) (ops : List (Opd α)) (hwf : WfIn self ops)
     (hinf : ¬ ∃ xs, Feasible b self ops xs) :
     (andUpDown b self ops).1.lo > (andUpDown b self ops).1.hi ∧
       isContra 1 (andUpDown b self ops).1 = true := by
@@ -170,7 +181,8 @@ theorem C03_and_infeasible (b : α) (self : Bounds α) (ops : List (Opd α)) (hw
 /-- **C03, And, the operands**: after the downward step the bounds `r` of the `k`-th operand
 contain the `k`-th value of every feasible assignment, and both end points are the `k`-th value of
 a feasible assignment. (`andUpDown_length`: there is such an `r` for every `k < ops.length`.) -/
-theorem C03_and_operand_hull (b : α) (self : Bounds α) (ops : List (Opd α)) (hwf : WfIn self ops)
+theorem _root_.LNN.C03_and_operand_hull
+    (b : α) (self : Bounds α) (ops : List (Opd α)) (hwf : WfIn self ops)
     (hfeas : ∃ xs, Feasible b self ops xs) (k : Nat) (r : Bounds α)
     (hr : (andUpDown b self ops).2[k]? = some r) :
     (∀ xs x, Feasible b self ops xs → xs[k]? = some x → r.lo ≤ x ∧ x ≤ r.hi) ∧
@@ -265,7 +277,7 @@ theorem orUpDown_length (t : Bool) (b : α) (self : Bounds α) (ops : List (Opd 
   simp [orUpDown, orDown, andDown]
 
 /-- **C03, Or, the connective itself** (both activation variants). -/
-theorem C03_or_operator_hull (t : Bool) (b : α) (self : Bounds α) (ops : List (Opd α))
+theorem _root_.LNN.C03_or_operator_hull (t : Bool) (b : α) (self : Bounds α) (ops : List (Opd α))
     (hwf : WfIn self ops) (hfeas : ∃ xs, OrFeasible b self ops xs) :
     let r := (orUpDown t b self ops).1
     (∀ xs, OrFeasible b self ops xs → r.lo ≤ orVal b ops xs ∧ orVal b ops xs ≤ r.hi) ∧
@@ -290,7 +302,7 @@ theorem C03_or_operator_hull (t : Bool) (b : α) (self : Bounds α) (ops : List 
     exact ⟨ys, hf, by rw [orVal_eq, map_one_sub_involutive, hv]⟩
 
 /-- **C03, Or, no feasible assignment**: the upward step crosses the bounds of the connective. -/
-theorem C03_or_infeasible (t : Bool) (b : α) (self : Bounds α) (ops : List (Opd α))
+theorem _root_.LNN.C03_or_infeasible (t : Bool) (b : α) (self : Bounds α) (ops : List (Opd α))
     (hwf : WfIn self ops) (hinf : ¬ ∃ xs, OrFeasible b self ops xs) :
     (orUpDown t b self ops).1.lo > (orUpDown t b self ops).1.hi ∧
       isContra 1 (orUpDown t b self ops).1 = true := by
@@ -317,7 +329,7 @@ theorem C03_or_infeasible (t : Bool) (b : α) (self : Bounds α) (ops : List (Op
     linarith
 
 /-- **C03, Or, the operands** (both activation variants). -/
-theorem C03_or_operand_hull (t : Bool) (b : α) (self : Bounds α) (ops : List (Opd α))
+theorem _root_.LNN.C03_or_operand_hull (t : Bool) (b : α) (self : Bounds α) (ops : List (Opd α))
     (hwf : WfIn self ops) (hfeas : ∃ xs, OrFeasible b self ops xs) (k : Nat) (r : Bounds α)
     (hr : (orUpDown t b self ops).2[k]? = some r) :
     (∀ xs x, OrFeasible b self ops xs → xs[k]? = some x → r.lo ≤ x ∧ x ≤ r.hi) ∧
@@ -434,7 +446,8 @@ theorem exists_impFeasible_iff' (b : α) (self : Bounds α) (x y : Opd α) :
     exact ⟨_, h, a, c, rfl⟩
 
 /-- **C03, Implies, the connective itself.** -/
-theorem C03_implies_operator_hull (b : α) (self : Bounds α) (x y : Opd α) (hwf : WfIn self [x, y])
+theorem _root_.LNN.C03_implies_operator_hull
+    (b : α) (self : Bounds α) (x y : Opd α) (hwf : WfIn self [x, y])
     (hfeas : ∃ vx vy, ImpFeasible b self x y vx vy) :
     let r := (impliesUpDown b self x y).1
     (∀ vx vy, ImpFeasible b self x y vx vy →
@@ -464,7 +477,8 @@ theorem C03_implies_operator_hull (b : α) (self : Bounds α) (x y : Opd α) (hw
 
 /-- **C03, Implies, no feasible assignment**: the upward step crosses the bounds of the
 connective. -/
-theorem C03_implies_infeasible (b : α) (self : Bounds α) (x y : Opd α) (hwf : WfIn self [x, y])
+theorem _root_.LNN.C03_implies_infeasible
+    (b : α) (self : Bounds α) (x y : Opd α) (hwf : WfIn self [x, y])
     (hinf : ¬ ∃ vx vy, ImpFeasible b self x y vx vy) :
     (impliesUpDown b self x y).1.lo > (impliesUpDown b self x y).1.hi ∧
       isContra 1 (impliesUpDown b self x y).1 = true := by
@@ -491,7 +505,8 @@ theorem C03_implies_infeasible (b : α) (self : Bounds α) (x y : Opd α) (hwf :
 /-- **C03, Implies, the operands**: the downward step returns exactly two bounds `rx`, `ry`; they
 contain the values of `x` and `y` in every feasible assignment and all four end points are attained
 in feasible assignments. -/
-theorem C03_implies_operand_hull (b : α) (self : Bounds α) (x y : Opd α) (hwf : WfIn self [x, y])
+theorem _root_.LNN.C03_implies_operand_hull
+    (b : α) (self : Bounds α) (x y : Opd α) (hwf : WfIn self [x, y])
     (hfeas : ∃ vx vy, ImpFeasible b self x y vx vy) :
     ∃ rx ry, (impliesUpDown b self x y).2 = [rx, ry] ∧
       (∀ vx vy, ImpFeasible b self x y vx vy →
@@ -533,6 +548,61 @@ theorem C03_implies_operand_hull (b : α) (self : Bounds α) (x y : Opd α) (hwf
     refine ⟨_, hf, a, c, rfl, ?_⟩
     have : c = ry.lo := by simpa using hv
     simp [this]
+
+/-! ## given bounds that are already crossed
+
+`WfIn` asks for non-empty given intervals. If all given bounds lie in `[0,1]` but some given interval
+is empty (crossed), there is trivially no feasible assignment, and the contradiction is already
+present at that operand or at the connective before any step. Together with the `*_infeasible`
+theorems: whenever no feasible assignment exists, a contradiction is reported at the connective or at
+one of its operands. -/
+
+/-- all given bounds lie in `[0,1]`, weights are non-negative; intervals may be crossed -/
+def In01 (self : Bounds α) (ops : List (Opd α)) : Prop :=
+  (∀ o ∈ ops, 0 ≤ o.w ∧ 0 ≤ o.lo ∧ o.lo ≤ 1 ∧ 0 ≤ o.hi ∧ o.hi ≤ 1) ∧
+    0 ≤ self.lo ∧ self.lo ≤ 1 ∧ 0 ≤ self.hi ∧ self.hi ≤ 1
+
+theorem wfIn_or_crossed (self : Bounds α) (ops : List (Opd α)) (h : In01 self ops) :
+    WfIn self ops ∨ isContra 1 self = true ∨ ∃ o ∈ ops, isContra 1 (⟨o.lo, o.hi⟩ : Bounds α) = true := by
+  obtain ⟨ho, s0, s1, s2, s3⟩ := h
+  by_cases hs : self.lo ≤ self.hi
+  · by_cases hc : ∀ o ∈ ops, o.lo ≤ o.hi
+    · exact Or.inl ⟨fun o hm => ⟨(ho o hm).1, (ho o hm).2.1, hc o hm, (ho o hm).2.2.2.2⟩, s0, hs, s3⟩
+    · push Not at hc
+      obtain ⟨o, hm, hlt⟩ := hc
+      exact Or.inr (Or.inr ⟨o, hm, isContra_one_of_crossed _ (ho o hm).2.2.2.1 (ho o hm).2.2.1 hlt⟩)
+  · exact Or.inr (Or.inl (isContra_one_of_crossed _ s2 s1 (not_le.mp hs)))
+
+/-- **C03, And, no feasible assignment, crossed inputs allowed**: a contradiction is reported at an
+operand, at the connective as given, or at the connective after the upward step. -/
+theorem _root_.LNN.C03_and_infeasible_reported (b : α) (self : Bounds α) (ops : List (Opd α))
+    (h01 : In01 self ops) (hinf : ¬ ∃ xs, Feasible b self ops xs) :
+    (∃ o ∈ ops, isContra 1 (⟨o.lo, o.hi⟩ : Bounds α) = true) ∨ isContra 1 self = true ∨
+      isContra 1 (andUpDown b self ops).1 = true := by
+  rcases wfIn_or_crossed self ops h01 with h | h | h
+  · exact Or.inr (Or.inr (C03_and_infeasible b self ops h hinf).2)
+  · exact Or.inr (Or.inl h)
+  · exact Or.inl h
+
+theorem _root_.LNN.C03_or_infeasible_reported
+    (t : Bool) (b : α) (self : Bounds α) (ops : List (Opd α))
+    (h01 : In01 self ops) (hinf : ¬ ∃ xs, OrFeasible b self ops xs) :
+    (∃ o ∈ ops, isContra 1 (⟨o.lo, o.hi⟩ : Bounds α) = true) ∨ isContra 1 self = true ∨
+      isContra 1 (orUpDown t b self ops).1 = true := by
+  rcases wfIn_or_crossed self ops h01 with h | h | h
+  · exact Or.inr (Or.inr (C03_or_infeasible t b self ops h hinf).2)
+  · exact Or.inr (Or.inl h)
+  · exact Or.inl h
+
+theorem _root_.LNN.C03_implies_infeasible_reported (b : α) (self : Bounds α) (x y : Opd α)
+    (h01 : In01 self [x, y]) (hinf : ¬ ∃ vx vy, ImpFeasible b self x y vx vy) :
+    (∃ o ∈ [x, y], isContra 1 (⟨o.lo, o.hi⟩ : Bounds α) = true) ∨ isContra 1 self = true ∨
+      isContra 1 (impliesUpDown b self x y).1 = true := by
+  rcases wfIn_or_crossed self [x, y] h01 with h | h | h
+  · exact Or.inr (Or.inr (C03_implies_infeasible b self x y h hinf).2)
+  · exact Or.inr (Or.inl h)
+  · exact Or.inl h
+
 
 /-! ## link to the engine model: `andUpDown` is what `stepUp` followed by `stepDown` computes -/
 
@@ -688,7 +758,7 @@ theorem stepUp_stepDown_list (kb : KB ι α) (i : ι) (s : State ι α) (hk : Is
 /-- **`andUpDown` is the engine** on an And node at alpha = 1 with as many weights as operands:
 `stepUp` writes `(andUpDown …).1` on the node and, unless that arrests the node, `stepDown` writes
 `(andUpDown …).2[m]` on the `m`-th operand. -/
-theorem stepUp_stepDown_and (kb : KB ι α) (i : ι) (s : State ι α)
+theorem _root_.LNN.C03_engine_and (kb : KB ι α) (i : ι) (s : State ι α)
     (hk : (kb i).kind = .and) (ha : (kb i).alpha = 1)
     (hlen : (kb i).ops.length = (kb i).ws.length) (hnd : (kb i).ops.Nodup) (hi : i ∉ (kb i).ops)
     (h1 : arrested kb s i = false) :
@@ -706,7 +776,7 @@ theorem stepUp_stepDown_and (kb : KB ι α) (i : ι) (s : State ι α)
   simp [andDown, opds, hm, hlen ▸ hm]
 
 /-- **`orUpDown` is the engine** on an Or node (either activation variant). -/
-theorem stepUp_stepDown_or (kb : KB ι α) (i : ι) (s : State ι α)
+theorem _root_.LNN.C03_engine_or (kb : KB ι α) (i : ι) (s : State ι α)
     (hk : (kb i).kind = .or) (ha : (kb i).alpha = 1)
     (hlen : (kb i).ops.length = (kb i).ws.length) (hnd : (kb i).ops.Nodup) (hi : i ∉ (kb i).ops)
     (h1 : arrested kb s i = false) :
@@ -724,7 +794,7 @@ theorem stepUp_stepDown_or (kb : KB ι α) (i : ι) (s : State ι α)
   simp [orDown, andDown, opds, hm, hlen ▸ hm]
 
 /-- **`impliesUpDown` is the engine** on an Implies node whose operands are seen as `[x, y]`. -/
-theorem stepUp_stepDown_implies (kb : KB ι α) (i : ι) (s : State ι α) (x y : Opd α)
+theorem _root_.LNN.C03_engine_implies (kb : KB ι α) (i : ι) (s : State ι α) (x y : Opd α)
     (hk : (kb i).kind = .implies) (ha : (kb i).alpha = 1) (hxy : opds (kb i) s = [x, y])
     (hlen : (kb i).ops.length = (kb i).ws.length) (hnd : (kb i).ops.Nodup) (hi : i ∉ (kb i).ops)
     (h1 : arrested kb s i = false) :
@@ -749,9 +819,9 @@ theorem stepUp_stepDown_implies (kb : KB ι α) (i : ι) (s : State ι α) (x y 
     simp [impliesDown, h]
   omega
 
-/-- when the given bounds admit no assignment the node is arrested after `stepUp`, so `stepDown`
+/-- when the given bounds allow no assignment the node is arrested after `stepUp`, so `stepDown`
 changes nothing: the contradiction is reported at the connective (And) -/
-theorem stepUp_arrests_and (kb : KB ι α) (i : ι) (s : State ι α)
+theorem _root_.LNN.C03_engine_arrest_and (kb : KB ι α) (i : ι) (s : State ι α)
     (hk : (kb i).kind = .and) (ha : (kb i).alpha = 1) (h1 : arrested kb s i = false)
     (hwf : WfIn (s i) (opds (kb i) s))
     (hinf : ¬ ∃ xs, Feasible (kb i).bias (s i) (opds (kb i) s) xs) :
@@ -765,7 +835,7 @@ theorem stepUp_arrests_and (kb : KB ι α) (i : ι) (s : State ι α)
   rw [← hs1] at hc
   exact ⟨hc, stepDown_arrested kb i s1 (Or.inl hk) (by rw [ha]; exact hc)⟩
 
-theorem stepUp_arrests_or (kb : KB ι α) (i : ι) (s : State ι α)
+theorem _root_.LNN.C03_engine_arrest_or (kb : KB ι α) (i : ι) (s : State ι α)
     (hk : (kb i).kind = .or) (ha : (kb i).alpha = 1) (h1 : arrested kb s i = false)
     (hwf : WfIn (s i) (opds (kb i) s))
     (hinf : ¬ ∃ xs, OrFeasible (kb i).bias (s i) (opds (kb i) s) xs) :
@@ -779,7 +849,7 @@ theorem stepUp_arrests_or (kb : KB ι α) (i : ι) (s : State ι α)
   rw [← hs1] at hc
   exact ⟨hc, stepDown_arrested kb i s1 (Or.inr (Or.inl hk)) (by rw [ha]; exact hc)⟩
 
-theorem stepUp_arrests_implies (kb : KB ι α) (i : ι) (x y : Opd α) (s : State ι α)
+theorem _root_.LNN.C03_engine_arrest_implies (kb : KB ι α) (i : ι) (x y : Opd α) (s : State ι α)
     (hk : (kb i).kind = .implies) (ha : (kb i).alpha = 1) (h1 : arrested kb s i = false)
     (hops : opds (kb i) s = [x, y]) (hwf : WfIn (s i) [x, y])
     (hinf : ¬ ∃ vx vy, ImpFeasible (kb i).bias (s i) x y vx vy) :
@@ -814,7 +884,8 @@ example : Feasible 1 exSelf exOps [1/2, 1, 7/8] := by
 
 /-- bias 1, operator bounds `[1/2, 3/4]`: the connective keeps `[1/2,3/4]` (upward gives `[0,7/8]`),
 operand 1 keeps `[1/4,3/4]`, operand 2 is tightened to `[5/8,1]`, operand 3 to `[13/16,1]` -/
-example : andUpDown 1 exSelf exOps = (⟨1/2, 3/4⟩, [⟨1/4, 3/4⟩, ⟨5/8, 1⟩, ⟨13/16, 1⟩]) := by
+theorem exAnd_eq :
+    andUpDown 1 exSelf exOps = (⟨1/2, 3/4⟩, [⟨1/4, 3/4⟩, ⟨5/8, 1⟩, ⟨13/16, 1⟩]) := by
   simp [andUpDown, writeBack, aggregate, andUp, andDown, exSelf, exOps, termLo, termHi, sumW, clamp01]
   norm_num
 
@@ -859,4 +930,38 @@ example : impliesUpDown 1 exSelf (⟨1, 1/2, 1⟩ : Opd ℚ) ⟨2, 0, 1⟩
     termLo, termHi, sumW, clamp01]
   norm_num
 
-end LNN
+/-- the And example as a knowledge base: node 3 = And(0, 1, 2), weights (1/2, 1, 2), bias 1 -/
+def exKB3 : KB Nat ℚ := fun i =>
+  match i with
+  | 3 => { kind := .and, ops := [0, 1, 2], ws := [1/2, 1, 2], bias := 1, alpha := 1 }
+  | _ => { kind := .atom, bias := 1, alpha := 1 }
+
+def exS3 : State Nat ℚ := fun i =>
+  match i with
+  | 0 => ⟨1/4, 3/4⟩ | 1 => ⟨1/2, 1⟩ | 2 => ⟨0, 1⟩ | 3 => ⟨1/2, 3/4⟩ | _ => ⟨0, 1⟩
+
+example : opds (exKB3 3) exS3 = exOps ∧ exS3 3 = exSelf := by
+  simp [opds, exKB3, exS3, exOps, exSelf]
+
+/-- the hypotheses of `C03_engine_and` hold (nothing is arrested before or after `stepUp`), so
+the engine itself tightens operand 2 to `[13/16, 1]` -/
+example : (stepDown exKB3 3 none (stepUp exKB3 3 exS3).1).1 2 = ⟨13/16, 1⟩ := by
+  have h1 : arrested exKB3 exS3 3 = false := by
+    simp [arrested, exKB3, isContra]
+    simp [exS3]
+    norm_num
+  have h2 : arrested exKB3 (stepUp exKB3 3 exS3).1 3 = false := by
+    simp only [stepUp, h1]
+    simp [arrested, actUp, opds, andUp, aggregate, clamp01, termLo, termHi, exKB3, isContra,
+      Function.update]
+    simp [exS3]
+    norm_num
+  have h := ((C03_engine_and exKB3 3 exS3 rfl rfl rfl (by simp [exKB3]) (by simp [exKB3])
+    h1).2 h2).2 2 (by simp [exKB3])
+  have e1 : opds (exKB3 3) exS3 = exOps := by simp [opds, exKB3, exS3, exOps]
+  have e2 : exS3 3 = exSelf := rfl
+  have e3 : (exKB3 3).bias = 1 := rfl
+  simp only [e1, e2, e3, exAnd_eq] at h
+  simpa [exKB3] using h.symm
+
+end LNN.C03
